@@ -1,13 +1,19 @@
 (* Extraction of the C10 model (Builder/Model.v), its layout specification
-   (Builder/Spec.v, expected_x of Builder/SpecX.v) and the wire reference decoder of C03 to OCaml.
+   (Builder/Spec.v, expected_x / upto_net / chain_ok of Builder/SpecX.v), the wire reference
+   decoder of C03 and -- for the value theorems of the typed ICMP kinds -- the C08 decoder
+   models Icmpv4Header / Icmpv6Header ::from_slice to OCaml.
    ExtrOcamlBasic only; N / positive / nat stay the extracted inductive types. *)
 From EP Require Import Base.Bytes Checksum.Spec Checksum.Model Parse.Types Parse.View Parse.WireSpec
   Builder.Model Builder.Spec Builder.SpecX.
+From EP Require CtlMsg.Spec Roundtrip.Common Roundtrip.Icmp4 Roundtrip.Icmp6.
 From Coq Require Import Extraction ExtrOcamlBasic.
 Extraction Language OCaml.
 Extraction "m_c10.ml"
-  N.add N.mul N.of_nat len
+  N.add N.mul N.of_nat len drop
   build_run final_size write_to_slice
   expected parse_pre expected_x payload_admitted off_net off_transport off_payload
-  wire_ethernet wire_linux_sll wire_from_ip
+  chain_ok upto_net is_fragmented_x ip_len_src ts_layer icmp4_admits tr_header_len tr_ip_number
+  wire_ethernet wire_linux_sll wire_from_ip wire_transport cut
+  Icmp4.icmp4_from_slice Icmp4.wf_icmp4_type Icmp4.icmp4_type_header_len
+  Icmp6.icmp6_from_slice Icmp6.wf_icmp6_type
   rfc1071 folds_to_ffff.
